@@ -2203,6 +2203,221 @@ RULES["tupassign"] = rule_tupassign
 RULE_ORDER[RULE_ORDER.index("R20"):RULE_ORDER.index("R20")] = ["tupassign"]
 
 
+# ---- rules added for unit info_print (additive): output as a ghost sequence of items ----
+def _wfmt_placeholders(lit):
+    """(number of positional placeholders, [implicitly captured names in order of first appearance]) of a format-string literal.
+    Handled are exactly the placeholder forms that occur in info_print.rs: `{}`, `{:SPEC}` (SPEC without `$` / `*`, e.g. `{:>3}`,
+    `{:+8.4e}`, `{:?}`, `{:.1e}`) and the inline captured identifier `{name}`.  Everything else (`{0}`, `{name:SPEC}`, `{:w$}`,
+    `{:.*}`, raw strings, `\\u{..}` escapes) is refused."""
+    if not (len(lit) >= 2 and lit[0] == '"' and lit[-1] == '"'):
+        raise ExtractError(f"wfmt: format string {lit!r} is not a plain string literal")
+    body = lit[1:-1]
+    i, npos, names = 0, 0, []
+    while i < len(body):
+        c = body[i]
+        if c == "\\":
+            if body[i + 1:i + 2] == "u":
+                raise ExtractError("wfmt: \\u{..} escape in a format string is not handled")
+            i += 2
+            continue
+        if c == "{":
+            if body[i + 1:i + 2] == "{":
+                i += 2
+                continue
+            j = body.find("}", i)
+            if j < 0:
+                raise ExtractError(f"wfmt: unbalanced brace in format string {lit!r}")
+            inner = body[i + 1:j]
+            name, colon, spec = inner.partition(":")
+            if "$" in spec or "*" in spec or "{" in inner:
+                raise ExtractError(f"wfmt: placeholder {{{inner}}} takes its width / precision from an argument: not handled")
+            if name == "":
+                npos += 1
+            elif re.fullmatch(r"[^\W\d]\w*", name) and not colon:
+                if name not in names:
+                    names.append(name)
+            else:
+                raise ExtractError(f"wfmt: placeholder form {{{inner}}} is not handled")
+            i = j + 1
+            continue
+        if c == "}":
+            if body[i + 1:i + 2] == "}":
+                i += 2
+                continue
+            raise ExtractError(f"wfmt: unbalanced brace in format string {lit!r}")
+        i += 1
+    return npos, names
+
+
+def _wfmt_args(toks, parts, lit):
+    """`&[fa(&A1), .., fa(&Ak), fa(&name1), ..]` for the explicit positional arguments (token ranges `parts`) followed by the
+    identifiers the format string captures inline"""
+    npos, names = _wfmt_placeholders(lit)
+    if npos != len(parts):
+        raise ExtractError(f"wfmt: {lit} has {npos} positional placeholders but {len(parts)} arguments")
+    out = synth("&[")
+    first = True
+    for (a, b) in parts:
+        arg = _strip_ws(toks[a:b])
+        code = [x for x in arg if x.kind not in ("ws", "comment")]
+        if len(code) >= 2 and code[0].kind == "ident" and code[1].kind == "punct" and code[1].text == "=":
+            raise ExtractError("wfmt: explicit named format argument (`name = expr`) is not handled")
+        if not first:
+            out += synth(", ")
+        out += synth("fa(&") + arg + synth(")")
+        first = False
+    for nm in names:
+        if not first:
+            out += synth(", ")
+        out += synth("fa(&" + nm + ")")
+        first = False
+    return out + synth("]")
+
+
+def rule_wfmt(toks, fired):
+    """wfmt:  formatted output becomes ONE abstract item appended to a ghost history (unit info_print)
+
+        write!(OUT, FMT $(, ARG)*)     ->  OUT.emit(FMT, &[ $( fa(&ARG) ),* ], false)
+        writeln!(OUT, FMT $(, ARG)*)   ->  OUT.emit(FMT, &[ $( fa(&ARG) ),* ], true)
+        writeln!(OUT,) / writeln!(OUT) ->  OUT.emit("", &[], true)
+        format!(FMT $(, ARG)*)         ->  fmt_str(FMT, &[ $( fa(&ARG) ),* ])
+        expformat!(FMT, V)             ->  fmt_exp(FMT, fa(&V))          (the crate-local macro at the top of info_print.rs)
+
+    A `?` (or nothing) that follows stays where it is.  An identifier captured inline by the format string (`{nthreads}`) is
+    appended to the argument list (that is what `format_args!` does with it).  OUT must be a plain identifier, FMT a plain string
+    literal; the placeholder forms handled are listed in `_wfmt_placeholders`; anything else is an ExtractError (exit 2).
+
+    Soundness.  The only effects of `write!(OUT, FMT, ARGS..)` (= `OUT.write_fmt(format_args!(FMT, ARGS..))`) are (a) evaluating
+    OUT and then the argument expressions, left to right, each once, and (b) handing the formatted bytes to OUT.  The rewrite keeps
+    (a) verbatim (same expressions, same order, each still evaluated once, now as `&ARG` -- `format_args!` takes its arguments by
+    reference as well) and replaces (b) by a call whose ASSUMED contract appends exactly one abstract item (format string, argument
+    values, newline flag) to the ghost history of OUT when it returns Ok.  Formatting itself could only matter to program state
+    through a `Display` / `Debug` impl with side effects; the argument types that occur are usize, u32, &usize, &str, String, the
+    float T (Display / LowerExp of f64 / f32), f64 (Debug), std::time::Duration (Debug) and SolverStatus (the crate's Display impl
+    is a `match` returning string literals): none has one.  `format!` is the same with a fresh String as target; the unit's
+    `fmt_str` returns a string whose text is an uninterpreted function of (FMT, argument values).
+    `expformat!(FMT, V)` is `if V.is_finite() { _exp_str_reformat(format!(FMT, V)) } else { format!(FMT, V) }`: both branches
+    format the same value with the same format string, `_exp_str_reformat` only normalises the exponent (sign, two digits).  The
+    rule requires V to be a place expression (identifiers and `.` only), so that evaluating it once instead of two or three times
+    is the same; the result is `fmt_exp(FMT, value)`.  DROPPED, stated in the unit: the finite / non-finite case split and
+    `_exp_str_reformat`, i.e. the textual shape of the number (the Kani harness `expformat_nonfinite_no_panic` covers its
+    panic-freedom)."""
+    def find_macro(names, start=0):
+        i = start
+        while i < len(toks):
+            t = toks[i]
+            if t.kind == "ident" and t.text in names and not t.syn:
+                b = next_code(toks, i + 1)
+                if b < len(toks) and toks[b].kind == "punct" and toks[b].text == "!":
+                    p = next_code(toks, b + 1)
+                    if p < len(toks) and toks[p].kind == "punct" and toks[p].text == "(":
+                        return i, p, match_close(toks, p)
+                    raise ExtractError(f"wfmt: {t.text}! is not called with parentheses")
+            i += 1
+        return None
+
+    def literal(a, b):
+        code = [x for x in toks[a:b] if x.kind not in ("ws", "comment")]
+        if len(code) != 1 or code[0].kind != "str":
+            raise ExtractError("wfmt: the format string is not a single string literal")
+        return code[0]
+
+    # 1. expformat!(FMT, V)
+    while True:
+        hit = find_macro(("expformat",))
+        if hit is None:
+            break
+        i, p, pe = hit
+        parts = split_top_commas(toks, p + 1, pe)
+        if len(parts) != 2:
+            raise ExtractError("wfmt: expformat! takes a format string and one value")
+        lit = literal(*parts[0])
+        if _wfmt_placeholders(lit.text) != (1, []):
+            raise ExtractError("wfmt: expformat! format string must contain exactly one positional placeholder")
+        val = _strip_ws(toks[parts[1][0]:parts[1][1]])
+        if not val or any(not (x.kind == "ident" or (x.kind == "punct" and x.text == ".")) for x in val):
+            raise ExtractError("wfmt: expformat! value is not a place expression (identifiers and `.` only)")
+        new = synth("fmt_exp(") + [lit] + synth(", fa(&") + val + synth("))")
+        toks = toks[:i] + new + toks[pe + 1:]
+        fired["wfmt_expformat"] = fired.get("wfmt_expformat", 0) + 1
+    # 2. format!(FMT, ARGS..)
+    while True:
+        hit = find_macro(("format",))
+        if hit is None:
+            break
+        i, p, pe = hit
+        parts = split_top_commas(toks, p + 1, pe)
+        if not parts:
+            raise ExtractError("wfmt: format! without a format string")
+        lit = literal(*parts[0])
+        new = synth("fmt_str(") + [lit] + synth(", ") + _wfmt_args(toks, parts[1:], lit.text) + synth(")")
+        toks = toks[:i] + new + toks[pe + 1:]
+        fired["wfmt_format"] = fired.get("wfmt_format", 0) + 1
+    # 3. write!(OUT, ..) / writeln!(OUT, ..)
+    while True:
+        hit = find_macro(("write", "writeln"))
+        if hit is None:
+            break
+        i, p, pe = hit
+        nl = toks[i].text == "writeln"
+        parts = split_top_commas(toks, p + 1, pe)
+        if not parts:
+            raise ExtractError("wfmt: write! without a target")
+        out = _strip_ws(toks[parts[0][0]:parts[0][1]])
+        if len(out) != 1 or out[0].kind != "ident":
+            raise ExtractError("wfmt: the target of write! / writeln! is not a plain identifier")
+        if len(parts) == 1:
+            if not nl:
+                raise ExtractError("wfmt: write! without a format string")
+            new = out + synth('.emit("", &[], true)')
+        else:
+            lit = literal(*parts[1])
+            new = (out + synth(".emit(") + [lit] + synth(", ") + _wfmt_args(toks, parts[2:], lit.text)
+                   + synth(", true)" if nl else ", false)"))
+        toks = toks[:i] + new + toks[pe + 1:]
+        fired["wfmt"] = fired.get("wfmt", 0) + 1
+    return toks
+
+
+def rule_strslice(toks, fired):
+    """strslice:  &X[A..B]  ->  str_slice(X, A, B)      for a plain identifier X and a range with both bounds written out.
+    Named only where X is a `&str` (unit info_print: the cone-type name without its trailing "Cone").  vstd models string
+    slicing through UTF-8 byte boundaries; the unit's helper `str_slice` carries the ASSUMED documented meaning for an ASCII string
+    (`requires A <= B <= len`: the panic condition of the slice expression stays a proof obligation; `ensures` the characters
+    A..B).  If X is not a &str the emitted call does not type-check (exit 2), it is never silently something else."""
+    i = 0
+    while i < len(toks):
+        t = toks[i]
+        if t.kind == "punct" and t.text == "&" and not t.syn:
+            x = next_code(toks, i + 1)
+            b = next_code(toks, x + 1) if x < len(toks) else len(toks)
+            if x < len(toks) and b < len(toks) and toks[x].kind == "ident" and toks[b].kind == "punct" and toks[b].text == "[":
+                be = match_close(toks, b)
+                dd, d = [], 0
+                for q in range(b + 1, be):
+                    xq = toks[q]
+                    if xq.kind == "punct" and xq.text in OPEN: d += 1
+                    elif xq.kind == "punct" and xq.text in CLOSE: d -= 1
+                    elif xq.kind == "punct" and xq.text == ".." and d == 0: dd.append(q)
+                if len(dd) == 1:
+                    A = _strip_ws(toks[b + 1:dd[0]])
+                    B = _strip_ws(toks[dd[0] + 1:be])
+                    if not A or not B:
+                        raise ExtractError("strslice: open-ended range is not handled")
+                    new = synth("str_slice(") + [toks[x]] + synth(", ") + A + synth(", ") + B + synth(")")
+                    toks = toks[:i] + new + toks[be + 1:]
+                    fired["strslice"] = fired.get("strslice", 0) + 1
+                    i += len(new)
+                    continue
+        i += 1
+    return toks
+
+
+RULES["wfmt"] = rule_wfmt
+RULES["strslice"] = rule_strslice
+RULE_ORDER[RULE_ORDER.index("R20"):RULE_ORDER.index("R20")] = ["wfmt", "strslice"]
+
+
 def apply_rules(toks, rules, fired):
     for r in RULE_ORDER:
         if r in rules:
